@@ -19,6 +19,7 @@ import (
 	"fmt"
 	"io"
 	"os"
+	"runtime"
 	"strconv"
 	"strings"
 	"sync"
@@ -26,7 +27,9 @@ import (
 
 	"github.com/restic/restic/internal/data"
 	"github.com/restic/restic/internal/dump"
+	"github.com/restic/restic/internal/global"
 	"github.com/restic/restic/internal/restic"
+	"github.com/restic/restic/internal/ui/progress"
 )
 
 var _ = verifRegister("C45", engineC45)
@@ -49,7 +52,7 @@ type c45Loader struct {
 	conns  uint
 }
 
-func (l *c45Loader) LoadBlob(_ context.Context, h restic.BlobHandle, _ []byte) ([]byte, error) {
+func (l *c45Loader) LoadBlob(_ context.Context, h restic.BlobHandle, buf []byte) ([]byte, error) {
 	if h.Type == restic.TreeBlob {
 		b, ok := l.trees[h.ID]
 		if !ok {
@@ -71,7 +74,15 @@ func (l *c45Loader) LoadBlob(_ context.Context, h restic.BlobHandle, _ []byte) (
 	if !ok {
 		return nil, fmt.Errorf("c45: blob not found")
 	}
-	return append([]byte(nil), b...), nil
+	// like Repository.loadBlob: the caller's buffer is reused when it can hold the
+	// ciphertext (plaintext + 32 bytes), and the plaintext is returned as a slice of it
+	const overhead = 32
+	if cap(buf) < len(b)+overhead {
+		buf = make([]byte, len(b)+overhead)
+	}
+	buf = buf[:len(b)]
+	copy(buf, b)
+	return buf, nil
 }
 func (l *c45Loader) LookupBlobSize(h restic.BlobHandle) (uint, bool) {
 	if b, ok := l.blobs[h.ID]; ok {
@@ -80,6 +91,9 @@ func (l *c45Loader) LookupBlobSize(h restic.BlobHandle) (uint, bool) {
 	return 0, false
 }
 func (l *c45Loader) Connections() uint { return l.conns }
+
+// c45IDOf maps a blob number to its ID (mock loader: synthetic IDs; real repository: SHA-256)
+var c45IDOf = c45DataID
 
 func c45DataID(n uint64) restic.ID {
 	var id restic.ID
@@ -114,7 +128,7 @@ func c45Save(l *c45Loader, blobs map[uint64][]byte, nodes []*c45Node) restic.ID 
 func c45DataNode(n *c45Node, blobs map[uint64][]byte) *data.Node {
 	node := &data.Node{Name: c45Name(n.name), Type: data.NodeTypeFile, Mode: n.mode, ModTime: time.Unix(1700000000, 0), UID: 1000, GID: 1000}
 	for _, c := range n.content {
-		node.Content = append(node.Content, c45DataID(c))
+		node.Content = append(node.Content, c45IDOf(c))
 		node.Size += uint64(len(blobs[c]))
 	}
 	if n.ty == 2 {
@@ -173,7 +187,11 @@ func c45Gen(rng *vrng, depth, maxNames, nblobs int) []*c45Node {
 			n.sub = c45Gen(rng, depth-1, maxNames, nblobs)
 		case r < 70:
 			n.ty = 0
-			for k := rng.intn(5); k > 0; k-- {
+			nc := rng.intn(5)
+			if rng.chance(15) {
+				nc = 8 + rng.intn(14)
+			}
+			for k := nc; k > 0; k-- {
 				n.content = append(n.content, uint64(1+rng.intn(nblobs)))
 			}
 			if rng.chance(15) && len(n.content) > 0 {
@@ -224,7 +242,7 @@ func c45Entry(path string, slash bool, ty int, mode uint64, link string, content
 }
 
 // c45Run dumps and parses back. format: 0 tar, 1 zip, 2 single file.
-func c45Run(l *c45Loader, blobs map[uint64][]byte, nodes []*c45Node, root []int, format int) (entries []string, human []string, failed bool) {
+func c45Run(l restic.Loader, save func([]*c45Node) (restic.ID, error), blobs map[uint64][]byte, nodes []*c45Node, root []int, format int) (entries []string, human []string, failed bool) {
 	var buf bytes.Buffer
 	ctx := context.Background()
 	var err error
@@ -239,7 +257,10 @@ func c45Run(l *c45Loader, blobs map[uint64][]byte, nodes []*c45Node, root []int,
 			err = d.WriteNode(ctx, c45DataNode(nodes[0], blobs))
 			return
 		}
-		id := c45Save(l, blobs, nodes)
+		var id restic.ID
+		if id, err = save(nodes); err != nil {
+			return
+		}
 		var tree data.TreeNodeIterator
 		tree, err = data.LoadTree(ctx, l, id)
 		if err != nil {
@@ -316,9 +337,152 @@ func c45Run(l *c45Loader, blobs map[uint64][]byte, nodes []*c45Node, root []int,
 	return
 }
 
+
+// c45SaveReal stores a crafted tree (children first) in a real repository.
+func c45SaveReal(ctx context.Context, up restic.BlobSaverWithAsync, blobs map[uint64][]byte, nodes []*c45Node) (restic.ID, error) {
+	b := data.NewTreeJSONBuilder()
+	types := []data.NodeType{data.NodeTypeFile, data.NodeTypeDir, data.NodeTypeSymlink, data.NodeTypeFifo, data.NodeTypeDev, data.NodeTypeSocket}
+	for _, n := range nodes {
+		node := c45DataNode(n, blobs)
+		node.Type = types[n.ty]
+		if n.ty == 1 {
+			id, err := c45SaveReal(ctx, up, blobs, n.sub)
+			if err != nil {
+				return restic.ID{}, err
+			}
+			node.Subtree = &id
+		}
+		if err := b.AddNode(node); err != nil {
+			return restic.ID{}, err
+		}
+	}
+	buf, _ := b.Finalize()
+	id, _, _, err := up.SaveBlob(ctx, restic.TreeBlob, buf, restic.ID{}, false)
+	return id, err
+}
+
+type c45RealCase struct {
+	kind   string
+	nodes  []*c45Node
+	format int
+	root   restic.ID
+}
+
+// c45Real: the Dumper on a real repository (real Repository.LoadBlob, which decrypts into the
+// caller's buffer when it is large enough, real index, real bloblru cache).  Small data blobs are
+// stored directly; the crafted trees repeat blobs inside a file with other blobs in between
+// (A B A, A B C A B, long lists over a small alphabet) and contain duplicate files separated by
+// other files, so a Dumper that does not keep a blob's bytes intact until its last use is caught.
+func c45Real(c *vctx, emitCase func(kind string, bitems []string, blobs map[uint64][]byte, nodes []*c45Node, format int, entries, human []string, failed bool, info string)) error {
+	e := newVenv(c, "real")
+	defer os.RemoveAll(e.base)
+	if _, se, err := e.cli("init"); err != nil {
+		return fmt.Errorf("init: %v %s", err, se)
+	}
+	rng := c.rng.fork()
+	const nblobs = 8
+	blobs := map[uint64][]byte{}
+	for k := uint64(1); k <= nblobs; k++ {
+		blobs[k] = rng.bytes(40 + rng.intn(24))
+	}
+	blobs[7] = rng.bytes(5)
+	var bitems []string
+	for k := uint64(1); k <= nblobs; k++ {
+		bitems = append(bitems, fmt.Sprintf("(%s, %s)", coqN(k), coqHex(blobs[k])))
+	}
+	file := func(name int, content ...uint64) *c45Node { return &c45Node{name: name, ty: 0, mode: 0o644, content: content} }
+	var cases []*c45RealCase
+	// single files
+	lists := [][]uint64{{1, 2, 1}, {1, 2, 3, 1, 2}, {1, 2, 1, 3, 1, 4, 1, 2}, {3, 3, 4, 3}, {7, 1, 7, 2, 7}}
+	for k := 0; k < c.n(6, 40); k++ {
+		var l []uint64
+		alpha := 3 + rng.intn(5)
+		for n := 12 + rng.intn(28); n > 0; n-- {
+			l = append(l, uint64(1+rng.intn(alpha)))
+		}
+		lists = append(lists, l)
+	}
+	for _, l := range lists {
+		cases = append(cases, &c45RealCase{kind: "real-file", nodes: []*c45Node{file(1, l...)}, format: 2})
+	}
+	// duplicate files separated by other files, in tar and zip
+	for format := 0; format <= 1; format++ {
+		for rep := 0; rep < c.n(2, 8); rep++ {
+			var top []*c45Node
+			for i := 0; i < 10; i++ {
+				dup := uint64(1 + (i+rep)%3)
+				d := &c45Node{name: i, ty: 1, mode: os.ModeDir | 0o755}
+				d.sub = []*c45Node{file(0, dup), file(1, uint64(4+rng.intn(2))), file(2, dup), file(3, 6, dup, 8), file(4, dup)}
+				top = append(top, d)
+			}
+			cases = append(cases, &c45RealCase{kind: []string{"real-tar", "real-zip"}[format], nodes: top, format: format})
+		}
+	}
+	old := c45IDOf
+	defer func() { c45IDOf = old }()
+	_, _, err := e.run(func(ctx context.Context, gopts global.Options) error {
+		printer := progress.NewTerminalPrinter(false, 0, gopts.Term)
+		repo, err := global.OpenRepository(ctx, gopts, printer)
+		if err != nil {
+			return err
+		}
+		if err := repo.LoadIndex(ctx, printer); err != nil {
+			return err
+		}
+		ids := map[uint64]restic.ID{}
+		err = repo.WithBlobUploader(ctx, func(ctx context.Context, up restic.BlobSaverWithAsync) error {
+			for k := uint64(1); k <= nblobs; k++ {
+				id, _, _, err := up.SaveBlob(ctx, restic.DataBlob, blobs[k], restic.ID{}, false)
+				if err != nil {
+					return err
+				}
+				ids[k] = id
+			}
+			c45IDOf = func(n uint64) restic.ID { return ids[n] }
+			for _, rc := range cases {
+				if rc.format == 2 {
+					continue
+				}
+				if rc.root, err = c45SaveReal(ctx, up, blobs, rc.nodes); err != nil {
+					return err
+				}
+			}
+			return nil
+		})
+		if err != nil {
+			return err
+		}
+		for _, rc := range cases {
+			for run := 0; run < 2; run++ {
+				entries, human, failed := c45Run(repo, func([]*c45Node) (restic.ID, error) { return rc.root, nil }, blobs, rc.nodes, nil, rc.format)
+				emitCase(rc.kind, bitems, blobs, rc.nodes, rc.format, entries, human, failed, fmt.Sprintf("real repository, conns=%d, GOMAXPROCS=%d", repo.Connections(), runtime.GOMAXPROCS(0)))
+			}
+		}
+		return nil
+	})
+	return err
+}
+
 func engineC45(c *vctx) error {
+	if runtime.GOMAXPROCS(0) < 4 {
+		runtime.GOMAXPROCS(4)
+	}
 	c.Header("Model.C45m", "C45m.case", "C45m.check_case")
 	c.Preamble("Import C45m.")
+	emitCase := func(kind string, bitems []string, root []int, nodes []*c45Node, format int, entries, human []string, failed bool, info string) {
+		rs := make([]string, len(root))
+		for i, r := range root {
+			rs[i] = coqN(uint64(r))
+		}
+		term := fmt.Sprintf("C45m.mk %s %s %s %s %s %s", coqList(bitems), coqN(uint64(format)), coqList(rs), c45TreeTerm(nodes), coqBool(failed), coqList(entries))
+		sz := c45Count(nodes)
+		c.Hist(fmt.Sprintf("format=%d entries=%d", format, min(len(entries), 9)/3*3))
+		if len(human) > 12 {
+			human = append(human[:12], "...")
+		}
+		c.Case(kind, sz >= 4 && len(entries) >= 3, sz, term,
+			fmt.Sprintf("format=%d root=%v nodes=%d %s -> %s", format, root, sz, info, strings.Join(human, "; ")))
+	}
 	emit := func(kind string, rng *vrng, blobs map[uint64][]byte, missing uint64, nodes []*c45Node, root []int, format int) {
 		l := &c45Loader{trees: map[restic.ID][]byte{}, blobs: map[restic.ID][]byte{}, conns: uint(1 + rng.intn(5))}
 		var bitems []string
@@ -334,19 +498,8 @@ func engineC45(c *vctx) error {
 				l.delays = append(l.delays, time.Duration(rng.intn(400))*time.Microsecond)
 			}
 		}
-		entries, human, failed := c45Run(l, blobs, nodes, root, format)
-		rs := make([]string, len(root))
-		for i, r := range root {
-			rs[i] = coqN(uint64(r))
-		}
-		term := fmt.Sprintf("C45m.mk %s %s %s %s %s %s", coqList(bitems), coqN(uint64(format)), coqList(rs), c45TreeTerm(nodes), coqBool(failed), coqList(entries))
-		sz := c45Count(nodes)
-		c.Hist(fmt.Sprintf("format=%d entries=%d", format, min(len(entries), 9)/3*3))
-		if len(human) > 12 {
-			human = append(human[:12], "...")
-		}
-		c.Case(kind, sz >= 4 && len(entries) >= 3, sz, term,
-			fmt.Sprintf("format=%d root=%v nodes=%d conns=%d -> %s", format, root, sz, l.conns, strings.Join(human, "; ")))
+		entries, human, failed := c45Run(l, func(ns []*c45Node) (restic.ID, error) { return c45Save(l, blobs, ns), nil }, blobs, nodes, root, format)
+		emitCase(kind, bitems, root, nodes, format, entries, human, failed, fmt.Sprintf("conns=%d", l.conns))
 	}
 	mkBlobs := func(rng *vrng, n int) map[uint64][]byte {
 		m := map[uint64][]byte{}
@@ -382,6 +535,11 @@ func engineC45(c *vctx) error {
 	emit("corpus-file", r0, cb, 0, corpus[0].sub[:1], nil, 2)
 	emit("corpus-file", r0, cb, 0, corpus[2:3], nil, 2)
 	emit("corpus-file-missing-blob", r0, cb, 4, corpus[0].sub[:1], nil, 2)
+	if err := c45Real(c, func(kind string, bitems []string, _ map[uint64][]byte, nodes []*c45Node, format int, entries, human []string, failed bool, info string) {
+		emitCase(kind, bitems, nil, nodes, format, entries, human, failed, info)
+	}); err != nil {
+		return fmt.Errorf("real repository scenario: %w", err)
+	}
 	rounds := c.n(300, 4000)
 	for r := 0; r < rounds; r++ {
 		rng := c.rng.fork()
@@ -390,7 +548,11 @@ func engineC45(c *vctx) error {
 		switch q := rng.intn(100); {
 		case q < 25: // single file with many blobs
 			n := &c45Node{name: 1, ty: 0, mode: 0o644}
-			for k := rng.intn(14); k > 0; k-- {
+			nc := rng.intn(14)
+			if rng.chance(30) {
+				nc = 15 + rng.intn(20)
+			}
+			for k := nc; k > 0; k-- {
 				n.content = append(n.content, uint64(1+rng.intn(nb)))
 			}
 			missing := uint64(0)
